@@ -5,8 +5,10 @@
    Definitions only.  Floats are modelled as exact rationals (the harness only feeds dyadic inputs on
    which every float operation of the code is exact); `tol` is the exact rational value of the double
    1e-10.  Any Python exception = None.
-   The model describes the tree WITH fixes/C14-step-last-sample.diff and fixes/C14-read-coeff.diff applied;
-   the `_v0` definitions are the code as found (kept for the `_refuted` witnesses). *)
+   The model describes the tree WITH fixes/C14-step-last-sample.diff, fixes/C14-read-coeff.diff and
+   fixes/C14-fill-coeff-repeated-points.diff applied.  Kept for the `_refuted` witnesses:
+   `_v0` = the code as first found (last sample not zeroed, one-step advance),
+   `_v1` = last sample zeroed but still the one-step advance (`if` instead of `while`). *)
 From Coq Require Import String Ascii.
 From Coq Require Import List QArith Bool Arith.
 Import ListNotations.
@@ -76,7 +78,34 @@ Definition get_full_tlist (tol : Q) (ps : list pulse) : option (list Q) :=
 
 Definition last_opt (l : list Q) : option Q := nth_error l (length l - 1).   (* l[-1] *)
 
-(* the loop; old_ind is the running index into old_tlist / old_coeffs *)
+(* the loop AS FIRST WRITTEN (v0/v1): old_ind advances by at most one slot per merged grid point *)
+Fixpoint fill_loop_v1 (tol first last : Q) (ot oc : list Q) (full : list Q) (old_ind : nat)
+  : option (list Q) :=
+  match full with
+  | [] => Some []
+  | t :: rest =>
+      if Qltb tol (first - t) then option_map (cons 0) (fill_loop_v1 tol first last ot oc rest old_ind)
+      else if Qltb tol (t - last) then option_map (cons 0) (fill_loop_v1 tol first last ot oc rest old_ind)
+      else match nth_error ot (S old_ind) with
+           | None => None                                            (* IndexError *)
+           | Some nx =>
+               let oi := if Qle_bool nx (t + tol) then S old_ind else old_ind in
+               match nth_error oc oi with
+               | None => None
+               | Some c => option_map (cons c) (fill_loop_v1 tol first last ot oc rest oi)
+               end
+           end
+  end.
+
+(* while old_ind + 1 < len(old_tlist) and old_tlist[old_ind + 1] <= t + tol: old_ind += 1
+   `nxt` is old_tlist[old_ind+1:], i the current old_ind *)
+Fixpoint advance (nxt : list Q) (bound : Q) (i : nat) : nat :=
+  match nxt with
+  | [] => i
+  | nx :: nxt' => if Qle_bool nx bound then advance nxt' bound (S i) else i
+  end.
+
+(* the loop of the repaired code; old_ind is the running index into old_tlist / old_coeffs *)
 Fixpoint fill_loop (tol first last : Q) (ot oc : list Q) (full : list Q) (old_ind : nat)
   : option (list Q) :=
   match full with
@@ -84,38 +113,38 @@ Fixpoint fill_loop (tol first last : Q) (ot oc : list Q) (full : list Q) (old_in
   | t :: rest =>
       if Qltb tol (first - t) then option_map (cons 0) (fill_loop tol first last ot oc rest old_ind)
       else if Qltb tol (t - last) then option_map (cons 0) (fill_loop tol first last ot oc rest old_ind)
-      else match nth_error ot (S old_ind) with
+      else let oi := advance (skipn (S old_ind) ot) (t + tol) old_ind in
+           match nth_error oc oi with
            | None => None                                            (* IndexError *)
-           | Some nx =>
-               let oi := if Qle_bool nx (t + tol) then S old_ind else old_ind in
-               match nth_error oc oi with
-               | None => None
-               | Some c => option_map (cons c) (fill_loop tol first last ot oc rest oi)
-               end
+           | Some c => option_map (cons c) (fill_loop tol first last ot oc rest oi)
            end
   end.
 
-(* coefficient padding at the head of _fill_coeff -- FIXED code:
+(* coefficient padding at the head of _fill_coeff:
      if len(c) == len(t)-1: c = c ++ [0]   elif len(c) == len(t): c = c[:-1] ++ [0] *)
 Definition pad_coeff (cf tl : list Q) : list Q :=
   if (length cf + 1 =? length tl)%nat then cf ++ [0]
   else if (length cf =? length tl)%nat then removelast cf ++ [0]
   else cf.
-(* code as found: only the first branch *)
+(* code as first found: only the first branch *)
 Definition pad_coeff_v0 (cf tl : list Q) : list Q :=
   if (length cf + 1 =? length tl)%nat then cf ++ [0] else cf.
 
-Definition fill_with (pad : list Q -> list Q -> list Q) (tol : Q) (cf tl full : list Q)
+Definition fill_gen (loop : Q -> Q -> Q -> list Q -> list Q -> list Q -> nat -> option (list Q))
+           (pad : list Q -> list Q -> list Q) (tol : Q) (cf tl full : list Q)
   : option (list Q) :=
   match full with
   | [] => Some []
   | _ => match nth_error tl 0, last_opt tl with
-         | Some first, Some last => fill_loop tol first last tl (pad cf tl) full 0
+         | Some first, Some last => loop tol first last tl (pad cf tl) full 0%nat
          | _, _ => None
          end
   end.
+Definition fill_with := fill_gen fill_loop.
+Definition fill_with_v1 := fill_gen fill_loop_v1.
 Definition fill_coeff := fill_with pad_coeff.
-Definition fill_coeff_v0 := fill_with pad_coeff_v0.
+Definition fill_coeff_v1 := fill_with_v1 pad_coeff.
+Definition fill_coeff_v0 := fill_with_v1 pad_coeff_v0.
 
 (* ---------------------------------------------------------------------------------------- *)
 (* Processor._is_pulses_valid (step_func) and get_full_coeffs                                 *)
@@ -151,6 +180,7 @@ Definition full_coeffs_with fill (tol : Q) (ps : list pulse) : option (list (lis
     end
   else None.
 Definition get_full_coeffs := full_coeffs_with fill_coeff.
+Definition get_full_coeffs_v1 := full_coeffs_with fill_coeff_v1.
 Definition get_full_coeffs_v0 := full_coeffs_with fill_coeff_v0.
 
 (* ---------------------------------------------------------------------------------------- *)
@@ -178,6 +208,7 @@ Definition run_slices_with fill (tol : Q) (ps : list pulse) : option (list (Q * 
   | _, _ => None
   end.
 Definition run_slices := run_slices_with fill_coeff.
+Definition run_slices_v1 := run_slices_with fill_coeff_v1.
 Definition run_slices_v0 := run_slices_with fill_coeff_v0.
 
 (* ---------------------------------------------------------------------------------------- *)
